@@ -33,27 +33,84 @@ def _load(repo):
 _G = {}
 
 
-def _worker(target):
-    from pyvc.driver import verify_function
+def _strip(r):
+    """Make a FunctionResult picklable: SMT-LIB2 text samples instead of z3 formulas."""
+    import z3
+
+    r.smt2 = getattr(r, "smt2", {})
+    for name, rec in r.obligations.items():
+        f = rec.pop("formula", None)
+        if f is not None and len(r.smt2) < 2:
+            s = z3.Solver()
+            for x in f:
+                s.add(x)
+            r.smt2[name] = s.to_smt2()[:6000]
+    return r
+
+
+def _expand(target):
+    """Phase 1: breadth-first exploration of one function until enough sub-trees are pending."""
+    from pyvc.driver import FunctionResult, verify_function
 
     P, REG, opts = _G["P"], _G["REG"], _G["opts"]
     try:
-        r = verify_function(P, REG, REG.contracts[target], opts)
-        j = r.to_json()
-        j["smt2"] = {}
-        if opts.get("keep_formulas"):
-            import z3
-
-            for name, rec in r.obligations.items():
-                if "formula" in rec and len(j["smt2"]) < 3:
-                    s = z3.Solver()
-                    for f in rec["formula"]:
-                        s.add(f)
-                    j["smt2"][name] = s.to_smt2()[:6000]
-        return j
+        return _strip(verify_function(P, REG, REG.contracts[target], opts, expand_to=opts.get("fanout", 32)))
     except Exception as e:  # pragma: no cover
-        return {"target": target, "error": f"worker crash {type(e).__name__}: {e}\n{traceback.format_exc()[-2000:]}", "obligations": [], "paths": 0,
-                "out_of_reach": None, "missing_covers": [], "covers": [], "inlined": [], "contract_calls": [], "extern_calls": [], "wall_s": 0, "solver_s": 0, "queries": 0}
+        r = FunctionResult(target)
+        r.pending = []
+        r.error = f"worker crash {type(e).__name__}: {e}\n{traceback.format_exc()[-2000:]}"
+        return _strip(r)
+
+
+def _subtree(job):
+    """Phase 2: explore some sub-trees of one function."""
+    from pyvc.driver import FunctionResult, verify_function
+
+    target, prefixes = job
+    P, REG, opts = _G["P"], _G["REG"], _G["opts"]
+    try:
+        r = verify_function(P, REG, REG.contracts[target], opts, work=prefixes)
+    except Exception as e:  # pragma: no cover
+        r = FunctionResult(target)
+        r.error = f"worker crash {type(e).__name__}: {e}\n{traceback.format_exc()[-2000:]}"
+    r.pending = []
+    return target, _strip(r)
+
+
+def run_all(targets, jobs):
+    from pyvc.driver import merge_results
+
+    if jobs <= 1:
+        firsts = [_expand(t) for t in targets]
+        parts = {t: [f] for t, f in zip(targets, firsts)}
+        for t, f in zip(targets, firsts):
+            if f.pending and not f.error and not f.out_of_reach:
+                parts[t].append(_subtree((t, f.pending))[1])
+    else:
+        ctx = mp.get_context("fork")
+        with ctx.Pool(jobs) as pool:
+            firsts = pool.map(_expand, targets, chunksize=1)
+            parts = {t: [f] for t, f in zip(targets, firsts)}
+            jobs_ = []
+            for t, f in zip(targets, firsts):
+                if f.pending and not f.error and not f.out_of_reach:
+                    n = min(len(f.pending), 4 * jobs)
+                    for i in range(n):
+                        ch = f.pending[i::n]
+                        if ch:
+                            jobs_.append((t, ch))
+            for t, r in pool.imap_unordered(_subtree, jobs_, chunksize=1):
+                parts[t].append(r)
+    out = []
+    for t in targets:
+        smt2 = {}
+        for p in parts[t]:
+            smt2.update(getattr(p, "smt2", {}))
+        r = merge_results(parts[t])
+        j = r.to_json()
+        j["smt2"] = dict(list(smt2.items())[:3])
+        out.append(j)
+    return out
 
 
 def known_findings():
@@ -109,12 +166,7 @@ def main(argv=None):
         print(f"CHECK-ERROR property={prop} no function is under contract for this property")
         return 3
     _G.update(P=P, REG=REG, opts=opts)
-    if args.jobs > 1 and len(targets) > 1:
-        ctx = mp.get_context("fork")
-        with ctx.Pool(min(args.jobs, len(targets))) as pool:
-            results = pool.map(_worker, targets, chunksize=1)
-    else:
-        results = [_worker(t) for t in targets]
+    results = run_all(targets, args.jobs)
 
     from pyvc.report import decide
 
